@@ -19,6 +19,8 @@ type genCtx struct {
 
 func (g *genCtx) pick(xs ...string) string { return xs[g.r.Intn(len(xs))] }
 
+func (g *genCtx) pick2(xs ...*Node) *Node { return xs[g.r.Intn(len(xs))] }
+
 func (g *genCtx) strLit() *Node {
 	return AStr(g.pick("", "a", "ab", "abc", "b", "B", "k1", "k12", "x", "1", "2", "10", "a,b", "zz"))
 }
@@ -105,6 +107,10 @@ func (g *genCtx) genB(d int) *Node {
 		case 3:
 			return AIn(AKey(), g.strLit(), g.strLit(), AStr(fmt.Sprintf("k%02d", g.r.Intn(30))))
 		case 4:
+			if g.r.Intn(3) == 0 {
+				// the pattern comes from the pair itself: every row of a chunk has its own
+				return ABin("~=", AKey(), g.pick2(AVal(), ABin("+", AStr("^"), AVal()), ACall("lower", AVal())))
+			}
 			return ABin("~=", g.genS(0), AStr(g.pick("^a", "b$", "^k.*1$", "1", "^ab$")))
 		case 5:
 			return ACall("is_int", g.genS(1))
@@ -143,7 +149,7 @@ func randStore(r *rand.Rand, kind int) ([]SPair, bool, bool) {
 		case 1:
 			v = []string{"1.5", "0.25", "3", "2.0", "10", "7.5"}[r.Intn(6)]
 		default:
-			v = []string{"", "a", "ab", "AB", "a,b,c", "1", "x y", "b", "k1"}[r.Intn(9)]
+			v = []string{"", "a", "ab", "AB", "a,b,c", "1", "x y", "b", "k1", "k", "k0", "^k1"}[r.Intn(12)]
 		}
 		pairs = append(pairs, KV{[]byte(k), []byte(v)})
 	}
